@@ -3716,6 +3716,11 @@ static Token *function(Token *tok, Type *basety, VarAttr *attr) {
       fn->is_inline_only = false;
       fn->is_static = false;
     }
+
+    // A block-scope declaration is the innermost declaration of the
+    // identifier: it hides a local or parameter of the same name.
+    if (scope->next)
+      push_scope(name_str)->var = fn;
   } else {
     fn = new_gvar(name_str, ty);
     fn->is_function = true;
